@@ -10,7 +10,7 @@ def run(fw):
                        'oracle: getter-by-getter comparison written in the harness (the information the printer serialises), not the libxml2 printer',
                        'outside: cloning of variable equivalences and their ids by Model::clone (no solver verdict within budget: attempted as best effort in the thorough tier), import sources']
     base = ['VSTD_STR_CAP=23', 'VSTD_VEC_CAP=4']
-    jobs = [('h_clone_model', g, []) for g in GROUPS] + [('h_clone_independent', g, []) for g in (2, 3)] + [('h_clone_parts', 0, [])]
+    jobs = [('h_clone_model', g, []) for g in GROUPS] + [('h_clone_independent', g, []) for g in (2, 3)] + [('h_clone_parts', 0, []), ('h_clone_parts', 4, ['DISTINCT_TESTVAR'])]
     if fw.tier == 'thorough':
         # the equivalence transfer of Model::clone has had no verdict within 25 min on any skeleton tried (DESIGN 11.5): one
         # minimal best-effort attempt is kept so that a future, faster encoding shows up as a discharged obligation
@@ -22,13 +22,13 @@ def run(fw):
         name = 'c11_%s_%d_%d' % (root, g, len(extra))
         m = fw.build_model(name, H, [root], defines=defs)
         us = fw.unwindset(m, root, vfw.std_rules(string=20))
-        lab = '%s[symbolic: %s%s]' % (root, GROUPS.get(g, 'all attributes'), ', with equivalence' if extra else '')
-        r = fw.cbmc(m, root, unwind=6, unwindset=us, timeout=900 if not extra else 1500, label=lab, symbolic=GROUPS.get(g, 'all attributes'))
+        lab = '%s[symbolic: %s%s]' % (root, GROUPS.get(g, 'all attributes'), ', reset test variable distinct from its variable' if extra == ['DISTINCT_TESTVAR'] else ', with equivalence' if extra else '')
+        r = fw.cbmc(m, root, unwind=6, unwindset=us, timeout=900 if (not extra or extra == ['DISTINCT_TESTVAR']) else 1500, label=lab, symbolic=GROUPS.get(g, 'all attributes'))
         fw.log(lab, r['status'], r['wall'], [(f['msg'], f['inputs']) for f in r['failed']][:4])
-        fw.handle(r, H, defs, best_effort=bool(extra) or (root == 'h_clone_model' and g == 0))
+        fw.handle(r, H, defs, best_effort=(bool(extra) and extra != ['DISTINCT_TESTVAR']) or (root == 'h_clone_model' and g == 0))
         if not extra and g in (0, 3, 4):
             mw = fw.build_model(name + 'w', H, [root], defines=defs + ['WITNESS'])
             fw.witness(mw, root, unwind=6, unwindset=us, timeout=900, label='witness:' + lab)
-        if not extra:
+        if not extra or extra == ['DISTINCT_TESTVAR']:
             fw.differential(m, root, H, seeds=15, defines=defs)
     vfw.pmap(one, jobs, 12)
